@@ -181,6 +181,16 @@ theorem C05_delete_index_removes_the_element {h : Heap} (hs : Struct h) (ha : Ac
       absVal (fuel + 1) (h.popIndex (some n) (i : Int)).1 n = some (.arr (xs.eraseIdx i))) :=
   deleteIndex_refines hs ha n hn harr i hi fuel
 
+/-- **AppendArray of an attached node moves it**: the call is `remove` from the node's container `p` followed by the append of the
+now detached node — every node off the ancestor chains of both `p` and the receiver keeps its value, and the receiver denotes what
+it denotes after the removal (which the deletion theorems above describe) followed by the value of the moved node -/
+theorem C05_append_array_moves {h : Heap} (hs : Struct h) (ha : Acyc h) (n v p : Nat) (hn : n < h.size) (hv : v < h.size)
+    (harr : (h.get n).type = .array) (hloop : h.isParentOrSelfNode n v = false) (hpar : (h.get v).parent = some p) (fuel : Nat) :
+    (∀ m : Id, ¬ Anc h m n → ¬ Anc h m p → absVal fuel (h.appendArray n [v]).1 m = absVal fuel h m) ∧
+    (∀ xs x, absVal (fuel + 1) (h.remove p v).1 n = some (.arr xs) → absVal fuel h v = some x →
+      absVal (fuel + 1) (h.appendArray n [v]).1 n = some (.arr (xs ++ [x]))) :=
+  appendArray_move_refines hs ha n v p hn hv harr hloop hpar fuel
+
 /-- what a node denotes depends only on the types, scalar payloads and children maps of its subtree (the frame rule behind the three
 theorems, usable for any other pair of heaps) -/
 theorem C05_value_depends_on_the_subtree (h h' : Heap) (P : Id → Prop)
